@@ -19,7 +19,7 @@ ASSUMPTIONS += [
     "block value types / coarsening wrappers: hierarchies are dumped EXPANDED to scalar CRS and compared with the scalar model / the scalar statement on the expanded matrices (block product = product of expansions, block adjoint = transpose of the expansion, in exact arithmetic); sizes are converted to expanded rows",
     "block-valued smoothers and the block cycle are not modelled here (C06/C02): 'acts like a fresh hierarchy' is an implementation-vs-implementation comparison against a new amg object whose coarsening replays the stored transfer operators (harness policy tape<C>)",
 ]
-RULE = "seeded random hierarchies (SPD M-matrices on paths/grids/random graphs, non-symmetric diagonally dominant), 4 coarsenings x 3 modelled relaxations x level parameters, scripts of dump/rebuild/apply; distinct = distinct case line; non-trivial = implementation output contains a non-zero value"
+RULE = "seeded random hierarchies (SPD M-matrices on paths/grids/random graphs, non-symmetric diagonally dominant), 4 coarsenings x 3 modelled relaxations x level parameters, scripts of dump/rebuild/apply; block part: SPD block matrices (b = 1, 2; 3 in the thorough tier), 5 coarsening routes incl. as_scalar and the runtime wrapper, with/without near-null-space vectors, both constructors and rebuild overloads; a subset again with 17 OpenMP threads; distinct = distinct case line; non-trivial = implementation output contains a non-zero value"
 
 def dense(n, m, rows):
     D = [[F(0)] * m for _ in range(n)]
